@@ -50,7 +50,7 @@ def trees(maxN, out=True):
     return res
 
 
-OPT_DEFAULT = {"P1": 0, "P2": 0, "P4": 4, "P5": 2, "BK": -1, "SZ": 2, "VIRT": 0, "INTSZ": 0, "NSFIX": -1, "LSFIX": -1, "MINNS": 0, "MAXSZ": 64}
+OPT_DEFAULT = {"P1": 0, "P2": 0, "P3": 1, "P4": 4, "P5": 2, "BK": -1, "SZ": 2, "VIRT": 0, "INTSZ": 0, "NSFIX": -1, "LSFIX": -1, "MINNS": 0, "MAXSZ": 64}
 SYMB = "symbolic (solver): per-node W,H in [0,64], NodeSpacing, LayerSpacing in [0,64]"
 
 
